@@ -65,6 +65,11 @@ func equalSets(a, b valSet) bool {
 	return true
 }
 
+type paramField struct {
+	param int
+	field *types.Var
+}
+
 type sinkReport struct {
 	fn      *ssa.Function
 	instr   ssa.Instruction
@@ -83,6 +88,8 @@ type boundAnalysis struct {
 	rawParam  map[*ssa.Function][]bool
 	rawField  map[*types.Var]string // field -> origin description
 	validates map[*ssa.Function][]bool
+	// validatesFld: f returns a nil error only after the integer field fv of its i-th (pointer) parameter was bounded
+	validatesFld map[*ssa.Function]map[paramField]bool
 	passThru  map[*ssa.Function][]bool // result k derives from integer parameters
 	// extraRaw lets a rule add sources (e.g. strings.Index positions)
 	extraRawCall func(c *ssa.Call) bool
@@ -92,7 +99,7 @@ type boundAnalysis struct {
 
 func newBoundAnalysis(p *Program, scope map[*ssa.Function]bool) *boundAnalysis {
 	ba := &boundAnalysis{p: p, scope: scope, rawResult: map[*ssa.Function][]bool{}, rawParam: map[*ssa.Function][]bool{},
-		rawField: map[*types.Var]string{}, validates: map[*ssa.Function][]bool{}, passThru: map[*ssa.Function][]bool{}, rawOrigin: map[ssa.Value]string{}}
+		rawField: map[*types.Var]string{}, validates: map[*ssa.Function][]bool{}, validatesFld: map[*ssa.Function]map[paramField]bool{}, passThru: map[*ssa.Function][]bool{}, rawOrigin: map[ssa.Value]string{}}
 	ba.fns = sortedFuncs(scope)
 	return ba
 }
@@ -551,6 +558,32 @@ func (s *fnState) validationFacts(c *ssa.BinOp, onTrue bool, G valSet) {
 			addBounded(G, args[i])
 		}
 	}
+	// fields of pointer arguments the callee validated: every load of that field of that object in this function
+	// (the field is written neither by the callee nor here)
+	for pf := range s.ba.validatesFld[f] {
+		if pf.param >= len(args) {
+			continue
+		}
+		written := false
+		var loads []ssa.Value
+		for _, in := range instrsOf(s.fn) {
+			switch x := in.(type) {
+			case *ssa.Store:
+				if fieldVar(x.Addr) == pf.field {
+					written = true
+				}
+			case *ssa.UnOp:
+				if fa, ok := x.X.(*ssa.FieldAddr); ok && x.Op == token.MUL && fa.X == args[pf.param] && fieldVar(fa) == pf.field {
+					loads = append(loads, x)
+				}
+			}
+		}
+		if !written {
+			for _, l := range loads {
+				addBounded(G, l)
+			}
+		}
+	}
 }
 
 type sinkUse struct {
@@ -634,6 +667,15 @@ func (ba *boundAnalysis) analyze(fn *ssa.Function, report bool) bool {
 	order := fn.DomPreorder()
 	changedSummary := false
 	var passVal []bool
+	var passFld map[paramField]bool
+	storedFields := map[*types.Var]bool{}
+	for _, in := range instrsOf(fn) {
+		if st, ok := in.(*ssa.Store); ok {
+			if fv := fieldVar(st.Addr); fv != nil {
+				storedFields[fv] = true
+			}
+		}
+	}
 
 	transfer := func(b *ssa.BasicBlock, G valSet, emit bool) {
 		for _, instr := range b.Instrs {
@@ -760,6 +802,36 @@ func (ba *boundAnalysis) analyze(fn *ssa.Function, report bool) bool {
 							passVal[i] = false
 						}
 					}
+					// integer fields of pointer parameters that are bounded here (and never written by fn)
+					here := map[paramField]bool{}
+					for v := range G {
+						u, ok := stripConv(v).(*ssa.UnOp)
+						if !ok || u.Op != token.MUL {
+							continue
+						}
+						fa, ok := u.X.(*ssa.FieldAddr)
+						if !ok {
+							continue
+						}
+						fv := fieldVar(fa)
+						if fv == nil || storedFields[fv] || !isIntegerType(fv.Type()) {
+							continue
+						}
+						for i, prm := range fn.Params {
+							if fa.X == ssa.Value(prm) {
+								here[paramField{i, fv}] = true
+							}
+						}
+					}
+					if passFld == nil {
+						passFld = here
+					} else {
+						for k := range passFld {
+							if !here[k] {
+								delete(passFld, k)
+							}
+						}
+					}
 				}
 			}
 		}
@@ -843,9 +915,23 @@ func (ba *boundAnalysis) analyze(fn *ssa.Function, report bool) bool {
 	}
 	// validates summary: from one clean pass over the converged states
 	passVal = nil
+	passFld = nil
 	for _, b := range order {
 		if visited[b] {
 			transfer(b, in[b].clone(), report)
+		}
+	}
+	if passFld != nil {
+		prev := ba.validatesFld[fn]
+		same := len(prev) == len(passFld)
+		for k := range passFld {
+			if !prev[k] {
+				same = false
+			}
+		}
+		if !same {
+			ba.validatesFld[fn] = passFld
+			changedSummary = true
 		}
 	}
 	if passVal != nil && !equalBools(passVal, ba.validates[fn]) {
